@@ -217,6 +217,13 @@ func (e *Engine) encodeFunction(name string) (fe *FuncEnc, err error) {
 			o.Status, o.Solver = "sat", "syntactic"
 			o.Goal = tBool(false)
 		}
+		// no hidden mutable package state: later runs in the same process behave like the first (C13, C20)
+		o.Props = append([]string{}, fe.props...)
+		for _, pr := range []string{"C13", "C20"} {
+			if !contains(o.Props, pr) {
+				o.Props = append(o.Props, pr)
+			}
+		}
 		fe.obls = append(fe.obls, o)
 	}
 	// package initializers establish the global invariants
@@ -471,6 +478,7 @@ func runCheck(repo, mode string, args []string) int {
 	var selected []*Obl
 	closureFuncs := 0
 	_ = closureFuncs
+	var inSet map[string]bool // functions in the dependency closure of the property
 	perFunc := map[*FuncEnc][]*Obl{}
 	for _, fe := range encs {
 		for _, o := range fe.obls {
@@ -500,7 +508,7 @@ func runCheck(repo, mode string, args []string) int {
 		for _, fe := range encs {
 			byName[fe.name] = fe
 		}
-		inSet := map[string]bool{}
+		inSet = map[string]bool{}
 		var work []string
 		frontEnd := map[string]bool{"C01": true, "C08": true, "C09": true, "C10": true}
 		otherKnown := map[string]bool{}
@@ -566,7 +574,7 @@ func runCheck(repo, mode string, args []string) int {
 		for _, m := range engineErrs {
 			fnName := m[:strings.Index(m, ":")]
 			c := e.contracts[fnName]
-			if prop == "C07" || (c != nil && c.serves(prop)) || !strings.Contains(fnName, ".") {
+			if prop == "C07" || (c != nil && c.serves(prop)) || inSet[fnName] || !strings.Contains(fnName, ".") {
 				rel = append(rel, m)
 			}
 		}
